@@ -8,16 +8,11 @@ from vf.cfront import line_of
 
 # ghost call counters (the "trace" of calls into the dynamic loader)
 def _bump(ex, st, key):
-    cur = st.ghost.get(key)
-    if cur is None:
-        cur = ex.init_ghost.setdefault(key, z3.Const('G0_' + key, B64))
-    st.ghost[key] = cur + 1
+    st.ghost[key] = st.gvar(key, B64) + 1
 
 
 def count(c, st, key):
-    if key in st.ghost:
-        return st.ghost[key]
-    return c.ex.init_ghost.setdefault(key, z3.Const('G0_' + key, B64))
+    return st.gvar(key, B64)
 
 
 @R.model('dlsym', "looks the symbol up in an OPEN library handle; counted in the ghost trace")
@@ -46,7 +41,6 @@ def _fromformat(ex, st, args, n):
 
 @R.model('PyDict_Clear', "empties the dict; counted in the ghost trace")
 def _dictclear(ex, st, args, n):
-    st.ghost['cleared:' + str(z3.simplify(args[0]).sexpr())[:40]] = BV(1, 64)
     _bump(ex, st, 'dict_clears')
     return None
 
